@@ -1,14 +1,25 @@
 (* C14 driver.  Fields (TAB separated):
      rm  VARIANT WORLD DECLS TAGS FS FLAVOR DEFAULT FORCE NAME VERSION RECURSIVE CHECK
          -> outcome TAB decls TAB tags TAB fs
-   VARIANT  = fixed | pinned | skiponly | onceonly
+   VARIANT  = fixed | pinned | skiponly | onceonly | nokeep (all fixes but C14-remove-keeps-shared-directory)
    WORLD    = product '|' product ...     product = name ',' version ',' edge ';' edge ...     (as in drv_c13)
    edge     = name ':' optstr ':' optstr ':' 0/1       (line version, resolved version, optional)
    optstr   = 'N' | 'S' enc
    DECLS    = name ',' version ',' dir ',' table  joined by ';'      (one stack, called S)
    TAGS     = name ',' tag ',' version            joined by ';'
    FS       = path joined by ';'
-   outcome  = ok | err=Kind ;  decls = name ',' version ',' dir ',' table joined by ';' ;  tags = name ',' tag ',' version *)
+   outcome  = ok | err=Kind ;  decls = name ',' version ',' dir ',' table joined by ';' ;  tags = name ',' tag ',' version
+
+     rmx XALL WW WU PATH DECLS TAGS FS FLAVOR DEFAULT OPTS ARGS ANSWERS        (the whole command, Model/RemoveExt.v)
+         -> outcome TAB decls TAB tags TAB fs
+   XALL     = two flags: fix C14-remove-other-declarations, fix C14-remove-keeps-shared-directory: 11 (= 1) | 10 | 01 | 00 (= 0)
+   WW, WU   = worlds as above: what _remove walks, what Eups.uses reads
+   PATH     = stack joined by ';'
+   DECLS    = stack ',' flavor ',' name ',' version ',' dir ',' table  joined by ';'
+   TAGS     = stack ',' flavor ',' name ',' tag ',' version            joined by ';'
+   OPTS     = recursive ',' nocheck ',' force ',' interactive      (0/1; interactive also N = option absent)
+   ARGS     = positional arguments joined by ';'      ANSWERS = lines of standard input joined by ';' ('-' = no line)
+   outcome  = ok | usage | err=Kind ; decls / tags in the format of DECLS / TAGS *)
 let dec_opt (s : Stdlib.String.t) : ascii list option =
   if s = "N" then None else Some (dec_str (Stdlib.String.sub s 1 (Stdlib.String.length s - 1)))
 
@@ -28,9 +39,9 @@ let stack_s = str_of_string "S"
 let handle (f : Stdlib.String.t array) : Stdlib.String.t =
   match f.(0) with
   | "rm" ->
-    let (skip, once) = (match f.(1) with
-      | "fixed" -> (true, true) | "pinned" -> (false, false)
-      | "skiponly" -> (true, false) | "onceonly" -> (false, true) | _ -> failwith "bad variant") in
+    let (skip, once, keep) = (match f.(1) with
+      | "fixed" -> (true, true, true) | "pinned" -> (false, false, false) | "nokeep" -> (true, true, false)
+      | "skiponly" -> (true, false, false) | "onceonly" -> (false, true, false) | _ -> failwith "bad variant") in
     let w = dec_world f.(2) in
     let fl = dec_str f.(6) in
     let decls = Stdlib.List.map (fun d ->
@@ -45,12 +56,45 @@ let handle (f : Stdlib.String.t array) : Stdlib.String.t =
     let st = { rdb = { apath = [stack_s]; adecls = decls; atags = tags }; rfs = fs } in
     let c = { rc_flavor = fl; rc_default = dec_str f.(7); rc_force = bool_of_field f.(8) } in
     let fuel = nat_of_int (Stdlib.List.length w + 2) in
-    let (r, st') = remove skip once fuel w c st (dec_str f.(9)) (dec_str f.(10)) (bool_of_field f.(11)) (bool_of_field f.(12)) in
+    let (r, st') = remove skip once keep fuel w c st (dec_str f.(9)) (dec_str f.(10)) (bool_of_field f.(11)) (bool_of_field f.(12)) in
     let out = (match r with Ok _ -> "ok" | Err k -> "err=" ^ err_name k) in
     let ds = Stdlib.String.concat ";" (Stdlib.List.map (fun ((((_, n), v), _), (dir, tb)) -> enc_str n ^ "," ^ enc_str v ^ "," ^ enc_str dir ^ "," ^ enc_str tb) st'.rdb.adecls) in
     let ts = Stdlib.String.concat ";" (Stdlib.List.map (fun ((((_, n), t), _), v) -> enc_str n ^ "," ^ enc_str t ^ "," ^ enc_str v) st'.rdb.atags) in
     let ps = Stdlib.String.concat ";" (Stdlib.List.map enc_str st'.rfs) in
     out ^ "\t" ^ ds ^ "\t" ^ ts ^ "\t" ^ ps
+  | "rmx" ->
+    let xall = (f.(1) = "1" || f.(1) = "11" || f.(1) = "10") in
+    let keep = (f.(1) = "1" || f.(1) = "11" || f.(1) = "01") in
+    let ww = dec_world f.(2) in
+    let wu = dec_world f.(3) in
+    let path = Stdlib.List.map dec_str (split_sep ';' f.(4)) in
+    let decls = Stdlib.List.map (fun d ->
+      match Stdlib.String.split_on_char ',' d with
+      | [s; fl; n; v; dir; tb] -> ((((dec_str s, dec_str n), dec_str v), dec_str fl), (dec_str dir, dec_str tb))
+      | _ -> failwith "bad decl") (split_sep ';' f.(5)) in
+    let tags = Stdlib.List.map (fun d ->
+      match Stdlib.String.split_on_char ',' d with
+      | [s; fl; n; t; v] -> ((((dec_str s, dec_str n), dec_str t), dec_str fl), dec_str v)
+      | _ -> failwith "bad tag") (split_sep ';' f.(6)) in
+    let fs = Stdlib.List.map dec_str (split_sep ';' f.(7)) in
+    let st = { rdb = { apath = path; adecls = decls; atags = tags }; rfs = fs } in
+    let o = (match Stdlib.String.split_on_char ',' f.(10) with
+      | [r; n; fo; i] -> { ro_recursive = bool_of_field r; ro_nocheck = bool_of_field n; ro_force = bool_of_field fo;
+                           ro_interactive = (if i = "N" then None else Some (bool_of_field i)) }
+      | _ -> failwith "bad opts") in
+    let args = Stdlib.List.map dec_str (split_sep ';' f.(11)) in
+    let answers = if f.(12) = "-" then [] else Stdlib.List.map dec_str (Stdlib.String.split_on_char ';' f.(12)) in
+    let fuel = nat_of_int (Stdlib.List.length ww + Stdlib.List.length wu + 2) in
+    (match eups_remove xall keep fuel ww wu (dec_str f.(8)) (dec_str f.(9)) st o args answers with
+     | None -> "usage\t\t\t"
+     | Some (r, st') ->
+       let out = (match r with Ok _ -> "ok" | Err k -> "err=" ^ err_name k) in
+       let ds = Stdlib.String.concat ";" (Stdlib.List.map (fun ((((s, n), v), fl), (dir, tb)) ->
+         enc_str s ^ "," ^ enc_str fl ^ "," ^ enc_str n ^ "," ^ enc_str v ^ "," ^ enc_str dir ^ "," ^ enc_str tb) st'.rdb.adecls) in
+       let ts = Stdlib.String.concat ";" (Stdlib.List.map (fun ((((s, n), t), fl), v) ->
+         enc_str s ^ "," ^ enc_str fl ^ "," ^ enc_str n ^ "," ^ enc_str t ^ "," ^ enc_str v) st'.rdb.atags) in
+       let ps = Stdlib.String.concat ";" (Stdlib.List.map enc_str st'.rfs) in
+       out ^ "\t" ^ ds ^ "\t" ^ ts ^ "\t" ^ ps)
   | _ -> failwith "unknown op"
 
 let () = main_loop handle
